@@ -546,6 +546,12 @@ func init() {
 		e.havocThrough(st, args[1])
 		res := e.havocResults(c, st)
 		e.sc.assume(and(sx("<=", "0", res.Tup[0].T), sx("<=", res.Tup[0].T, sx("s_len", args[1].T))), "io.ReadFull/ReadAtLeast: 0 <= n <= len(buf)")
+		// success means the requested amount was read, however the underlying reader fragments it
+		if len(args) >= 3 {
+			e.sc.assume(implies(eq(res.Tup[1].T, "0"), sx(">=", res.Tup[0].T, args[2].T)), "io.ReadAtLeast: at least min bytes unless an error is returned")
+		} else {
+			e.sc.assume(implies(eq(res.Tup[1].T, "0"), eq(res.Tup[0].T, sx("s_len", args[1].T))), "io.ReadFull: the whole buffer unless an error is returned")
+		}
 		return res
 	})
 
